@@ -435,7 +435,8 @@ def d22Rels : List (String × String) := [("rId1", "worksheets/sheet1.xml")]
     the list's own qualified name is excluded): after fix 4dbff9e its subtree is skipped. Between these children
     (five positions, `Gaps`) any inert events may occur: start tags whose local name is not one of the four the
     reader interprets (`fileVersion`, `bookViews`, `calcPr`, `mc:AlternateContent`, `externalReferences`,
-    `pivotCaches`, … with any attributes and nesting), end tags other than the workbook's, text, comments, PIs. -/
+    `pivotCaches`, … with any attributes and nesting), foreign `workbookPr` twins without a `date1904` attribute
+    (before or after the real element), end tags other than the workbook's, text, comments, PIs. -/
 theorem sheets_in_order_xlsx (rels : List (String × String)) (q : String → String) (hq : QOk q)
     (ridKey : String) (hk : ridKeyOk ridKey) (pr : Option (List (String × String)))
     (sheets : List XSheet) (hs : ∀ s ∈ sheets, s.ok rels) (names : List (String × List (Bool × String)))
@@ -583,7 +584,8 @@ def excelGaps : Gaps :=
     g1 := [.start "mc:AlternateContent" [], .start "mc:Choice" [("Requires", "x15")], .start "x15ac:absPath" [("url", "C:\\")],
            .end_ "x15ac:absPath", .end_ "mc:Choice", .end_ "mc:AlternateContent",
            .start "bookViews" [], .start "workbookView" [("xWindow", "0")], .end_ "workbookView", .end_ "bookViews"],
-    g2 := [.other, .start "externalReferences" [], .start "externalReference" [("r:id", "rId9")], .end_ "externalReference",
+    g2 := [.start "mc:AlternateContent" [], .start "x15:workbookPr" [("chartTrackingRefBase", "1")], .end_ "x15:workbookPr",
+           .end_ "mc:AlternateContent", .other, .start "externalReferences" [], .start "externalReference" [("r:id", "rId9")], .end_ "externalReference",
            .end_ "externalReferences"],
     g3 := [.start "calcPr" [("calcId", "191029")], .end_ "calcPr", .start "pivotCaches" [], .text "\n", .end_ "pivotCaches"],
     g4 := [.other] }
@@ -591,6 +593,7 @@ def excelGaps : Gaps :=
 example : excelGaps.ok := by
   refine ⟨?_, ?_, ?_, ?_, ?_⟩ <;> intro e he <;> simp [excelGaps] at he <;>
     (first | (rcases he with rfl | rfl | rfl | rfl | rfl | rfl | rfl | rfl | rfl | rfl <;> decide)
+           | (rcases he with rfl | rfl | rfl | rfl | rfl | rfl | rfl | rfl | rfl <;> decide)
            | (rcases he with rfl | rfl | rfl | rfl | rfl <;> decide)
            | (rcases he with rfl | rfl <;> decide)
            | (subst he; decide))
